@@ -399,7 +399,11 @@ class Monitors:
         req = pairs.requested_pairs(cols, label, target_only, is_3mr)
         opt = pairs.optional_pairs(cols, label, target_only, is_3mr)
         colset = set(cols)
-        cap = args.combination_number_upper_bound
+        # the cap the user asked for on the command line (3MR heuristics are documented to clamp it to 10^4), not whatever
+        # the args object holds by the time the graph is built
+        cap = self.cli.get('combination_number_upper_bound', 2 ** 15)
+        if is_3mr:
+            cap = min(cap, 10 ** 4)
         bad = [t for t in trip if t[0] not in colset or t[1] not in colset]
         if bad:
             self.violate('C06', 'foreign-column', {'triplet': list(bad[0]), 'columns': cols[:20]})
@@ -440,6 +444,10 @@ class Monitors:
     # ------------------------------------------------------------------------------ C07
     def on_sampler(self, cand, cap, returned):
         self.sampler_calls += 1
+        user_cap = self.cli.get('combination_number_upper_bound', 2 ** 15)
+        if '3mr' in self.heuristic:
+            user_cap = min(user_cap, 10 ** 4)
+        cap = user_cap
         if 'C07' not in self.oracles:
             for r in returned:
                 self.sampler_model.counts[r] += 1
